@@ -398,7 +398,17 @@ func init() {
 
 // called from the loop ops -------------------------------------------------------------
 
-func trackApp(l *loopInst, ops string) {
+// appBefore: the application's view (tracked DBI) before a transaction, so that only operations
+// with an effect count as the application's writes
+func appBefore(l *loopInst) map[string][]byte {
+	_, app, err := logicalOf(l)
+	if err != nil {
+		return nil
+	}
+	return app
+}
+
+func trackApp(l *loopInst, ops string, before map[string][]byte) {
 	t := trackOf(l.id)
 	if ops == "-" {
 		return
@@ -429,6 +439,9 @@ func trackApp(l *loopInst, ops string) {
 		case "p":
 			// only what really is in the application's DBI now counts as its committed write
 			if cur, ok := app[k]; ok && bytes.Equal(cur, mustUnhx(f[3])) {
+				if old, was := before[k]; was && bytes.Equal(old, cur) {
+					continue // the key already held this value: no effect, nothing new to track
+				}
 				if sv, ok := logical[k]; !l.native && ok && !sv.del && bytes.Equal(sv.val, cur) {
 					// rewriting the value the shadow already holds is not a change Lightning Stream can see
 					delete(t.writes, k)
@@ -441,6 +454,9 @@ func trackApp(l *loopInst, ops string) {
 		case "d":
 			if _, still := app[k]; still {
 				continue
+			}
+			if _, was := before[k]; !was {
+				continue // the key was not there: a deletion without effect (LMDB records nothing)
 			}
 			changed = true
 			// a deletion Lightning Stream can know about: the key was live in the shadow (non-native)
